@@ -22,6 +22,7 @@ import (
 	"strconv"
 	"strings"
 	"sync"
+	"unicode"
 	"unicode/utf8"
 
 	"github.com/goccy/go-yaml"
@@ -711,6 +712,12 @@ func yamlUnprintable(s string) bool {
 		switch {
 		case r == '\t' || r == '\n':
 		case r < 0x20 || r == 0x7F || r == 0x85 || r == 0x2028 || r == 0x2029 || r == 0xFFFE || r == 0xFFFF:
+			return true
+		case r != ' ' && r != utf8.RuneError && !unicode.IsPrint(r):
+			// goccy writes such characters (no-break space, byte order
+			// mark, zero width space, ...) as Go escape sequences inside
+			// single quotes whenever it decides to quote the scalar
+			// itself; they are then read back literally.
 			return true
 		case r == utf8.RuneError:
 			if _, size := utf8.DecodeRuneInString(s[i:]); size == 1 {
